@@ -160,6 +160,7 @@ def shards(tier, seed):
     # few shapes, long texts: sections opened again under the same (type, name), nesting, repeats
     for i in range(len(DEEP_SHAPES)):
         specs.append({"part": "deep", "first": i, "maxlines": 7 if tier == "thorough" else 6})
+    specs.append({"part": "long"})
     per = 400 if tier == "quick" else 6000
     for i in range(16):
         specs.append({"part": "random", "seed": seed * 1000 + i, "n": per,
@@ -180,6 +181,18 @@ def _do(res, text):
 def run_shard(spec):
     res = Result()
     part = spec["part"]
+    if part == "long":
+        # size classes: lines near 64 Ki and 1 Mi characters, flush left inside nested sections
+        # (the serialiser re-indents them)
+        for base in (1 << 16, 1 << 20):
+            for d in range(-8, 3):
+                n = base + d
+                for text in ("<a>\nk " + "v" * (n - 3) + "\n</a>\n",
+                             "<a>\n<b>\n<c>\nk " + "v" * (n - 3) + "\n</c>\n</b>\n</a>\n",
+                             "k " + "v" * (n - 3) + "\n"):
+                    _do(res, text)
+        res.exhaustive_parts.append("lines of 2**16 +- 8 and 2**20 +- 8 characters at nesting depth 0, 1 and 3")
+        return res
     if part == "single":
         f = spec["first"]
         lines = linegen.single_lines_with_first([f], spec["maxtok"])
